@@ -41,6 +41,28 @@ import (
 type c09Backend struct {
 	mu sync.Mutex
 	m  map[string][]byte
+	// failUpload / failFetch: per-key countdown of operations of the code under
+	// test that fail with a transient (non "not found") error without taking effect.
+	failUpload map[string]int
+	failFetch  map[string]int
+	injected   int
+}
+
+func (b *c09Backend) armed(key string) bool {
+	b.mu.Lock()
+	defer b.mu.Unlock()
+	return b.failUpload[key] > 0 || b.failFetch[key] > 0
+}
+
+// peek is the harness's own read: it bypasses fault injection.
+func (b *c09Backend) peek(key string) ([]byte, error) {
+	b.mu.Lock()
+	defer b.mu.Unlock()
+	v, ok := b.m[key]
+	if !ok {
+		return nil, fmt.Errorf("c09 backend: %q: %w", key, os.ErrNotExist)
+	}
+	return bytes.Clone(v), nil
 }
 
 func (b *c09Backend) Upload(ctx context.Context, key string, data []byte, opts *UploadOptions) error {
@@ -49,6 +71,11 @@ func (b *c09Backend) Upload(ctx context.Context, key string, data []byte, opts *
 	}
 	b.mu.Lock()
 	defer b.mu.Unlock()
+	if b.failUpload[key] > 0 {
+		b.failUpload[key]--
+		b.injected++
+		return fmt.Errorf("c09 backend: injected transient upload failure for %q", key)
+	}
 	b.m[key] = bytes.Clone(data)
 	return nil
 }
@@ -59,6 +86,11 @@ func (b *c09Backend) Fetch(ctx context.Context, key string) ([]byte, error) {
 	}
 	b.mu.Lock()
 	defer b.mu.Unlock()
+	if b.failFetch[key] > 0 {
+		b.failFetch[key]--
+		b.injected++
+		return nil, fmt.Errorf("c09 backend: injected transient fetch failure for %q", key)
+	}
 	v, ok := b.m[key]
 	if !ok {
 		return nil, fmt.Errorf("c09 backend: %q: %w", key, os.ErrNotExist)
@@ -160,7 +192,7 @@ func c09NewEnv() *c09Env {
 	if err != nil {
 		c09Fail("tempdir: %v", err)
 	}
-	e := &c09Env{dir: dir, be: &c09Backend{m: map[string][]byte{}}, pub: &key.PublicKey}
+	e := &c09Env{dir: dir, be: &c09Backend{m: map[string][]byte{}, failUpload: map[string]int{}, failFetch: map[string]int{}}, pub: &key.PublicKey}
 	e.cfg = &Config{
 		Name: c09LogName, Key: key, WitnessKey: wkey, Cache: filepath.Join(dir, "cache.db"),
 		Backend: e.be, Lock: &c09LockBackend{m: map[[32]byte][]byte{}}, Log: slog.New(slog.DiscardHandler),
@@ -244,7 +276,7 @@ func (e *c09Env) checkGetRoots() error {
 
 // treeSize verifies the published checkpoint independently and returns its size.
 func (e *c09Env) treeSize() int64 {
-	cp, err := e.be.Fetch(context.Background(), "checkpoint")
+	cp, err := e.be.peek("checkpoint")
 	if err != nil {
 		c09Fail("no checkpoint: %v", err)
 	}
@@ -264,7 +296,7 @@ func (e *c09Env) readLeaves(from, n int64) (map[int64]*verifmc.RefEntry, error) 
 			w = n - tile*verifmc.TileW
 		}
 		path := verifmc.TileCoord{Kind: "data", N: tile, W: int(w)}.Path()
-		gz, err := e.be.Fetch(context.Background(), path)
+		gz, err := e.be.peek(path)
 		if err != nil {
 			return nil, fmt.Errorf("data tile %s missing from storage: %v", path, err)
 		}
